@@ -24,7 +24,7 @@ PROPERTY = "C18"
 RULE = (
     "Base documents = the repository's demo input files + files written by the API for every design method (generated "
     "scenarios). Every (section, field) of every base document is corrupted by one operator at a time -- delete key, delete "
-    "section, wrong JSON type, below minimum, above maximum, unknown enum value, wrong array length -- and, as benign variants, "
+    "section, wrong JSON type (also null and a falsy value of the wrong type, also on the optional fields), below minimum, above maximum, unknown enum value, wrong array length -- and, as benign variants, "
     "the letter case of method / arrangement / fluid / flow type / timestep is changed. Oracle for the verdict: an independent "
     "section-by-section jsonschema validation (upper-cased names) decides valid/invalid; validate_input_file must return 0 iff "
     "valid (raising counts as not accepted). Oracle for the exit status: each document x CLI shape {--validate-only, run with "
@@ -111,6 +111,8 @@ def mutations(doc):
             if field in doc.get(section, {}):
                 out.append((section, field, "delete_key"))
                 out.append((section, field, "wrong_type"))
+                out.append((section, field, "set_null"))
+                out.append((section, field, "set_falsy"))
                 if "minimum" in spec:
                     out.append((section, field, "below_min"))
                 if "maximum" in spec:
@@ -124,6 +126,8 @@ def mutations(doc):
                     out.append((section, field, "array_bad_item"))
             elif field in ("timestep", "start_month", "max_boreholes", "continue_if_design_unmet"):
                 out.append((section, field, "add_optional"))
+                out.append((section, field, "add_optional_null"))
+                out.append((section, field, "add_optional_falsy"))
                 if field == "timestep":
                     out.append((section, field, "add_optional_lower"))
     out.append(("version", None, "delete_section"))
@@ -145,6 +149,12 @@ def apply(doc, section, field, op):
     elif op == "wrong_type":
         t = spec.get("type")
         sec[field] = {"number": "abc", "string": 123, "array": 5, "boolean": "yes", "object": 7}.get(t, None)
+    elif op in ("set_null", "add_optional_null"):
+        sec[field] = None
+    elif op in ("set_falsy", "add_optional_falsy"):
+        # a wrong-typed value that is falsy in Python (normalisation code written as `x or default` swallows these)
+        t = spec.get("type")
+        sec[field] = {"number": "", "integer": "", "string": 0, "array": {}, "boolean": 0, "object": []}.get(t, False)
     elif op == "below_min":
         sec[field] = spec["minimum"] - 1
     elif op == "above_max":
@@ -325,7 +335,8 @@ def search_bulk(ctx):
         step = max(1, len(cases) // 1100)
         off = ctx.seed % step
         # every CLI shape on every uncorrupted base document is always run; the corrupted ones are sampled
-        cases = [c for c in cases if c["op"] == "none"] + [c for c in cases[off::step] if c["op"] != "none"]
+        always = lambda c: c["op"] == "none" or c["op"].startswith("add_optional")  # noqa: E731 -- few and cheap
+        cases = [c for c in cases if always(c)] + [c for c in cases[off::step] if not always(c)]
     cases = [c for c in cases if cheap(c)]
     ctx.rec.notes["bulk_cases_total"] = len(cases)
     ctx.each(cases[ctx.shard::ctx.nshards])
